@@ -623,7 +623,18 @@ func Kill(p *Proc) {
 // Run executes main as task 0 under the scheduler and returns when every task
 // is done, the run is stopped by an invariant, deadlocks, or exceeds its step
 // budget. It must be called inside a synctest bubble.
+// runStartHooks run at the beginning of every simulation: shims use them to
+// drop process-wide state (e.g. the contents of simulated sync.Pools) so that a
+// run never depends on which runs the worker process executed before it.
+var runStartHooks []func()
+
+// OnRunStart registers f to be called at the start of every simulation.
+func OnRunStart(f func()) { runStartHooks = append(runStartHooks, f) }
+
 func Run(tp *Tape, cfg Config, main func()) *Sim {
+	for _, f := range runStartHooks {
+		f()
+	}
 	if cfg.MaxSteps == 0 {
 		cfg.MaxSteps = 50000
 	}
